@@ -70,8 +70,13 @@ fn conv_case(rt: &tokio::runtime::Runtime, dir: &Path, case: &Value, n: usize) -
 		let p = file_path(dir, f, "convsrc");
 		remove_path(&p);
 		let fsrc = Source { fmt: f.to_string(), tf: src.tf.clone(), tc: src.tc.clone(), tiles: src.tiles.clone(), blobs: src.blobs.clone(), by_bytes: src.by_bytes.clone() };
-		let (ok, _) = produce(rt, &json!({"origin":"indep","choices":{"partial_blocks":1,"dot_prefix":1}}), &fsrc, &p);
-		if ok { Some(p) } else { None }
+		let (ok, err) = produce(rt, &json!({"origin":"indep","choices":{"partial_blocks":1,"dot_prefix":1}}), &fsrc, &p);
+		if !ok {
+			// the harness's own encoder could not write the source file (disk full, bad scratch path): not a verdict
+			eprintln!("TOOL: cannot write the source file {}: {err}", p.display());
+			std::process::exit(6);
+		}
+		Some(p)
 	} else {
 		None
 	};
@@ -80,7 +85,8 @@ fn conv_case(rt: &tokio::runtime::Runtime, dir: &Path, case: &Value, n: usize) -
 		match &src_file {
 			Some(p) => match catch(|| rt.block_on(get_reader(p.to_str().unwrap()))) {
 				Ok(Ok(r)) => r,
-				_ => Box::new(MemReader::new("unreadable", TileFormat::PBF, TileCompression::Gzip, vec![])),
+				// (a real reader that cannot open a valid file is C16's matter, not C06's: this case then runs on the in-memory source)
+				_ => Box::new(src.mem_reader()),
 			},
 			None => Box::new(src.mem_reader()),
 		}
